@@ -31,10 +31,20 @@ func vfAllocDelta(f func()) uint64 {
 	var a, b runtime.MemStats
 	runtime.GC()
 	runtime.ReadMemStats(&a)
-	f()
+	func() {
+		defer func() {
+			if r := recover(); r != nil {
+				vfC13Panics = append(vfC13Panics, fmt.Sprint(r))
+			}
+		}()
+		f()
+	}()
 	runtime.ReadMemStats(&b)
 	return b.TotalAlloc - a.TotalAlloc
 }
+
+// vfC13Panics collects panics raised by decoders on hostile input.
+var vfC13Panics []string
 
 func TestVerif_C13(t *testing.T) {
 	rec := evid.New("C13")
@@ -397,6 +407,30 @@ func TestVerif_C13(t *testing.T) {
 			}
 			rec.Distinct(fmt.Sprintf("writer|fsz=%d|n=%d", fsz, min64i(n, 1001)))
 		}
+	}
+	// every boundary length word once more, for every decoder, under recover
+	for _, decl := range []uint32{0xfffffffc, 0xfffffffd, 0xfffffffe, 0xffffffff, 0x80000000, 0x7fffffff, 401, 402, 403, 404, 8193, 65, 17} {
+		tiny := []byte("abcdefgh")
+		for name, f := range map[string]func(){
+			"string":  func() { xdrDecodeString(bytes.NewReader((&xdrw.W{}).U32(decl).Raw(tiny).B)) },
+			"handle":  func() { xdrDecodeFileHandle(bytes.NewReader((&xdrw.W{}).U32(decl).Raw(tiny).B)) },
+			"cred":    func() { DecodeRPCCall(bytes.NewReader((&xdrw.W{}).U32(1).U32(0).U32(2).U32(100003).U32(3).U32(0).U32(1).U32(decl).Raw(tiny).B)) },
+			"verf":    func() { DecodeRPCCall(bytes.NewReader((&xdrw.W{}).U32(1).U32(0).U32(2).U32(100003).U32(3).U32(0).U32(0).U32(0).U32(0).U32(decl).Raw(tiny).B)) },
+			"authsys": func() { ParseAuthSysCredential((&xdrw.W{}).U32(1).U32(decl).Raw(tiny).B) },
+			"gids":    func() { ParseAuthSysCredential((&xdrw.W{}).U32(1).Str("m").U32(0).U32(0).U32(decl).Raw(tiny).B) },
+			"record":  func() { NewRecordMarkingReader(bytes.NewReader((&xdrw.W{}).U32(decl).Raw(tiny).B)).ReadRecord() },
+		} {
+			before := len(vfC13Panics)
+			vfAllocDelta(f)
+			rec.Eval(1)
+			if len(vfC13Panics) > before {
+				rec.Violate("C13/decoder-panics-on-hostile-length/"+name, fmt.Sprintf("declared length %#x: %s", decl, vfC13Panics[len(vfC13Panics)-1]), nil)
+			}
+			rec.Distinct(fmt.Sprintf("hostile-length|%s|%#x", name, decl))
+		}
+	}
+	if len(vfC13Panics) > 0 {
+		rec.Violate("C13/decoder-panicked", vfC13Panics[0], nil)
 	}
 	rec.Sample(map[string]any{"string_lengths": lens, "auth_lengths": "0..402", "handle_lengths": "0..70", "fragmentations_of_records_up_to": maxN})
 }
